@@ -279,6 +279,43 @@ def impl_regex_sub(rx, enc):
     return ('ok', source.sent, list(bytearray(d['r.sub.input'])) if 'r.sub.input' in d else [])
 
 
+def latin1_machines(report):
+    """Bytes machines given an encoder of their own (ISO-8859-1, the encoding of tag names): the language over the bytes THAT encoder
+    produces, judged by the reference derivative semantics over characters (one character = one byte here).  -> runs"""
+    import cpppo
+    from cpppo import automata as A, dotdict
+    enc = lambda s: s.encode('iso-8859-1')
+    n = 0
+    for rx in ('\xe9+', 'a*\xe9', 'a+b', '(a\xe9)*a', '\xff+a', '[^\xe9]+\xe9?', '\xe9\xb5*', 'a|\xe9\xe9'):
+        try:
+            m = A.regex_bytes(initial=rx, context='r', terminal=True, regex_encoder=enc)
+        except Exception as e:
+            report(dict(regex=rx, regex_encoder='iso-8859-1'), 'a bytes machine with an ISO-8859-1 encoder cannot be built: %s' % type(e).__name__); continue
+        r = parse_re(rx)
+        cr = core_re(r)
+        inputs = [s for s in strings('a\xe9\xffb\xb5', 3)]
+        outs = core.run_model('regex', [cr + [len(s)] + [ord(c) for c in s] for s in inputs])
+        for s, o in zip(inputs, outs):
+            n += 1
+            source = cpppo.chainable(enc(s)); d = dotdict()
+            try:
+                with m as mm:
+                    for _ in mm.run(source=source, data=d):
+                        pass
+                    term = mm.terminal
+                io = ('ok', source.sent, list(bytearray(d.get('r.input', b'')))) if term else ('nonterminal',)
+            except A.NonTerminal:
+                io = ('nonterminal',)
+            except Exception as e:
+                io = ('other', type(e).__name__)
+            mo = ('ok', o[1], list(enc(s[:o[1]]))) if o[0] == 1 else ('nonterminal',)
+            if io != mo:
+                report(dict(regex=rx, regex_encoder='iso-8859-1', input=s, machine=repr(io), standard=repr(mo)),
+                       'a bytes machine given an ISO-8859-1 encoder does not accept the expression\'s language over the bytes that encoder produces')
+                break
+    return n
+
+
 def bytes_deviations(thorough, chunk_report=None):
     """every bytes machine of BYTES_RES on every string over BYTES_ALPHA (whole, and at every 2-way chunking where the whole run
     is right) -> (regex, input, machine result, standard semantics) for every run"""
@@ -414,6 +451,7 @@ def run(ctx):
         if nbad <= 6:
             ctx.violation(dict(regex=rx, input=s, mode='bytes', machine=repr(whole), standard_semantics=repr(mo)),
                           'bytes regex machine does not consume/accept the longest viable prefix of the input')
+    ctx.coverage['runs_of_machines_with_an_iso_8859_1_encoder'] = latin1_machines(lambda w, what: chunk_bad.append((w, what)))
     for w, what in chunk_bad[:3]:
         nbad += 1
         ctx.violation(w, what)
